@@ -692,7 +692,7 @@ def _gen_anneal(ctx):
                 if 0.2 < r < 0.5:
                     c["temperature_range"] = (2.0, 0.5)
                 elif r > 0.8:
-                    c["schedule"] = rng.choice(["linear", [3.0, 2.0, 1.0], [1.5]])
+                    c["schedule"] = rng.choice(["linear", [3.0, 2.0, 1.0], [1.5], [1.0, 3.0, 2.0], [0.5, 2.0]])
                 yield c
 
 
